@@ -15,6 +15,7 @@ import (
 	"path/filepath"
 	"runtime"
 	"runtime/debug"
+	"runtime/pprof"
 	"sort"
 	"strconv"
 	"strings"
@@ -249,6 +250,13 @@ func workerMain(args []string) {
 	if ck == nil {
 		fmt.Fprintf(os.Stderr, "unknown check %q\n", args[0])
 		os.Exit(2)
+	}
+	if pf := os.Getenv("VERIF_CPUPROFILE"); pf != "" {
+		// development aid: CPU profile of one worker
+		if f, err := os.Create(pf); err == nil {
+			pprof.StartCPUProfile(f)
+			defer pprof.StopCPUProfile()
+		}
 	}
 	sh, _ := strconv.Atoi(args[2])
 	n, _ := strconv.Atoi(args[3])
